@@ -92,6 +92,9 @@ func (f *fnnCtx) valueFNN(v ssa.Value, fn *ssa.Function, depth int) (bool, strin
 		if returnsParam0(o) {
 			return f.valueFNN(x.Call.Args[0], fn, depth+1)
 		}
+		if k, ok := returnsParamK(o); ok && k < len(x.Call.Args) {
+			return f.valueFNN(x.Call.Args[k], fn, depth+1)
+		}
 		// a pointer-receiver method called on a local set that is still its zero value (var m Set; return m.Add(…)):
 		// if the method, entered with *recv == nil, first stores a fresh map there and hands back what is there,
 		// the result is that fresh map
@@ -122,6 +125,63 @@ func (f *fnnCtx) valueFNN(v ssa.Value, fn *ssa.Function, depth int) (bool, strin
 	return false, fmt.Sprintf("value of unrecognised form %T (%s)", v, sym(v))
 }
 
+// returnsParamK: every return of fn hands back one and the same parameter — directly, or read from a local cell that
+// only ever received that parameter (a parameter captured by a range-over-func body lives in such a cell).
+func returnsParamK(fn *ssa.Function) (int, bool) {
+	if fn == nil || fn.Blocks == nil {
+		return 0, false
+	}
+	idx, n, ok := -1, 0, true
+	paramOf := func(v ssa.Value) int {
+		for i, p := range fn.Params {
+			if v == ssa.Value(p) {
+				return i
+			}
+		}
+		if a, isLd := loadAddr(v); isLd {
+			if al, isAl := a.(*ssa.Alloc); isAl {
+				k := -1
+				for _, r := range referrersOf(al) {
+					st, isSt := r.(*ssa.Store)
+					if !isSt || st.Addr != ssa.Value(al) {
+						continue
+					}
+					j := -1
+					for i, p := range fn.Params {
+						if st.Val == ssa.Value(p) {
+							j = i
+						}
+					}
+					if j < 0 || (k >= 0 && k != j) {
+						return -1
+					}
+					k = j
+				}
+				return k
+			}
+		}
+		return -1
+	}
+	allInstrs(fn, func(in ssa.Instruction) {
+		r, isRet := in.(*ssa.Return)
+		if !isRet {
+			return
+		}
+		n++
+		if len(r.Results) != 1 {
+			ok = false
+			return
+		}
+		k := paramOf(r.Results[0])
+		if k < 0 || (idx >= 0 && idx != k) {
+			ok = false
+			return
+		}
+		idx = k
+	})
+	return idx, ok && n > 0 && idx >= 0
+}
+
 // nilRecvMakesFresh: fn has a pointer receiver p; in its entry block it tests *p == nil and on that edge stores a
 // fresh map to *p; nothing else is stored to *p; and every return hands back the current *p (directly, or through
 // helpers that return their first argument).
@@ -148,8 +208,24 @@ func nilRecvMakesFresh(fn *ssa.Function) bool {
 			v = ct.X
 		}
 		if _, isMk := v.(*ssa.MakeMap); !isMk {
-			clean = false
-			return
+			// … or the result of a constructor of the package that is one (NewSize(n) = make(Set, n))
+			call, isCall := v.(*ssa.Call)
+			okCtor := false
+			if isCall {
+				if cal := origin(staticCallee(&call.Call)); cal != nil && cal.Blocks != nil && len(cal.Blocks) == 1 {
+					if ret, ok := cal.Blocks[0].Instrs[len(cal.Blocks[0].Instrs)-1].(*ssa.Return); ok && len(ret.Results) == 1 {
+						r := ret.Results[0]
+						if ct, ok := r.(*ssa.ChangeType); ok {
+							r = ct.X
+						}
+						_, okCtor = r.(*ssa.MakeMap)
+					}
+				}
+			}
+			if !okCtor {
+				clean = false
+				return
+			}
 		}
 		// on the edge *p == nil of a test in the entry block
 		guarded := false
@@ -174,6 +250,38 @@ func nilRecvMakesFresh(fn *ssa.Function) bool {
 			clean = false
 		}
 	})
+	if clean && nFresh == 0 {
+		// the receiver is only handed on: every return is (a chain of first-argument-returning helpers around) a call
+		// of another such method on the same receiver (Add = s.ensure(n).insert(items))
+		var fwd func(v ssa.Value, d int) bool
+		fwd = func(v ssa.Value, d int) bool {
+			call, ok := v.(*ssa.Call)
+			if !ok || d > 3 || len(call.Call.Args) == 0 {
+				return false
+			}
+			cal := origin(staticCallee(&call.Call))
+			if cal == nil || cal == fn {
+				return false
+			}
+			if call.Call.Args[0] == p {
+				return nilRecvMakesFresh(cal)
+			}
+			if returnsParam0(cal) {
+				return fwd(call.Call.Args[0], d+1)
+			}
+			return false
+		}
+		n, all := 0, true
+		allInstrs(fn, func(in ssa.Instruction) {
+			if r, ok := in.(*ssa.Return); ok && len(r.Results) == 1 {
+				n++
+				if !fwd(r.Results[0], 0) {
+					all = false
+				}
+			}
+		})
+		return n > 0 && all
+	}
 	if !clean || nFresh != 1 {
 		return false
 	}
